@@ -99,6 +99,8 @@ func (P) Exec(line string) string {
 		return strings.Join(res, "##")
 	case "cache":
 		return execCache(f[2:])
+	case "view":
+		return execView(f[2:])
 	}
 	return "bad-op"
 }
@@ -416,6 +418,22 @@ func execChain(c cfg, ops []string, slot int) string {
 			r.in.chain = ch
 			r.base = 0
 			out = append(out, "ok")
+		case 'J':
+			// spend journal of any delivered block, active or not
+			blk, ok := r.blocks[atoi(op[1:])]
+			if !ok {
+				return "bad-line"
+			}
+			st, err := r.in.chain.FetchSpendJournal(blk)
+			if err != nil {
+				out = append(out, "err")
+				continue
+			}
+			parts := make([]string, len(st))
+			for i, x := range st {
+				parts[i] = fmtEntry(x.Amount, x.PkScript, x.Height, x.IsCoinBase)
+			}
+			out = append(out, "j="+strings.Join(parts, ","))
 		case 'V':
 			id := atoi(op[1:])
 			tx, ok := r.txs[id]
@@ -609,4 +627,121 @@ func (P) Facts() []core.Fact {
 		{Name: "flushPeriodic", Value: int64(blockchain.FlushPeriodic)},
 		{Name: "flushIfNeeded", Value: int64(blockchain.FlushIfNeeded)},
 	}
+}
+
+// ---------------------------------------------------------------- the exported UtxoViewpoint / UtxoEntry API on its own
+
+func execView(ops []string) string {
+	b := newBuilder(cfg{maturity: 1})
+	view := blockchain.NewUtxoViewpoint()
+	known := map[aOp]bool{}
+	real := func(o aOp) wire.OutPoint {
+		h, ok := b.txHash[o.t]
+		if !ok {
+			h = chainhash.Hash{0xee, byte(o.t), byte(o.t >> 8)}
+			b.txHash[o.t] = h
+			b.txID[h] = o.t
+		}
+		return wire.OutPoint{Hash: h, Index: uint32(o.i)}
+	}
+	entryStr := func(e *blockchain.UtxoEntry) string {
+		if e == nil {
+			return "nil"
+		}
+		fl := 0
+		if e.IsSpent() {
+			fl |= 1
+		}
+		return fmtEntry(e.Amount(), e.PkScript(), e.BlockHeight(), e.IsCoinBase()) + fmt.Sprintf(".%d", fl)
+	}
+	dump := func() string {
+		ents := view.Entries()
+		var ks []aOp
+		for o := range known {
+			ks = append(ks, o)
+		}
+		sortOps(ks)
+		var parts []string
+		n := 0
+		for _, o := range ks {
+			e, ok := ents[real(o)]
+			if !ok {
+				continue
+			}
+			n++
+			parts = append(parts, fmt.Sprintf("%d.%d:%s", o.t, o.i, entryStr(e)))
+		}
+		if n != len(ents) {
+			parts = append(parts, "stray")
+		}
+		return strings.Join(parts, ",")
+	}
+	var out []string
+	for _, op := range ops {
+		res := "ok"
+		switch op[0] {
+		case 'T', 'o': // T<cb>:<h>:<tx>   o<cb>:<h>:<idx>:<tx>
+			f := strings.SplitN(op[1:], ":", 4)
+			if (op[0] == 'T' && len(f) != 3) || (op[0] == 'o' && len(f) != 4) {
+				return "bad-op"
+			}
+			cb, h := f[0] == "1", int32(atoi(f[1]))
+			t := parseTx(f[len(f)-1])
+			tx := btcutil.NewTx(b.tx(t, cb, h))
+			if b.bad {
+				return "bad-line"
+			}
+			for i := range t.outs {
+				known[aOp{t.id, i}] = true
+			}
+			if op[0] == 'T' {
+				view.AddTxOuts(tx, h)
+			} else {
+				view.AddTxOut(tx, uint32(atoi(f[2])), h)
+			}
+		case 'r':
+			o := parseOp(op[1:])
+			known[o] = true
+			view.RemoveEntry(real(o))
+		case 's':
+			o := parseOp(op[1:])
+			known[o] = true
+			if e := view.LookupEntry(real(o)); e != nil {
+				e.Spend()
+			}
+		case 'l':
+			o := parseOp(op[1:])
+			known[o] = true
+			e := view.LookupEntry(real(o))
+			po := view.FetchPrevOutput(real(o))
+			res = entryStr(e)
+			if (e == nil) != (po == nil) || (e != nil && (po.Value != e.Amount() || string(po.PkScript) != string(e.PkScript()))) {
+				res = "incons"
+			}
+			if e != nil {
+				c := e.Clone()
+				if entryStr(c) != res || c == e {
+					res = "badclone"
+				}
+			}
+		case 'h':
+			h := cacheHash(atoi(op[1:]))
+			view.SetBestHash(&h)
+			g := view.BestHash()
+			res = fmt.Sprint(int(g[1]) | int(g[2])<<8)
+		case 'e': // e<t.i>:<amt>:<script>:<h>:<cb>
+			f := strings.Split(op[1:], ":")
+			if len(f) != 5 {
+				return "bad-op"
+			}
+			o := parseOp(f[0])
+			known[o] = true
+			view.Entries()[real(o)] = blockchain.NewUtxoEntry(
+				&wire.TxOut{Value: int64(atoi(f[1])), PkScript: unhexOrDash(f[2])}, int32(atoi(f[3])), f[4] == "1")
+		default:
+			return "bad-op"
+		}
+		out = append(out, res+";v="+dump())
+	}
+	return strings.Join(out, "|")
 }
